@@ -22,7 +22,9 @@ Definition issued_of (e : event) : list N :=
   | EvAlloc s => [s]
   | EvSent None reported _ => [reported]
   | EvSent (Some _) _ _ => []
-  | EvSendErr _ => []
+  | EvSendErr _ between => between
+  | EvSentResumed None between reported _ => reported :: between   (* its own serial was taken first *)
+  | EvSentResumed (Some _) between _ _ => between
   end.
 Definition issued (evs : list event) : list N := flat_map issued_of evs.
 
@@ -30,6 +32,8 @@ Definition issued (evs : list event) : list N := flat_map issued_of evs.
 Definition sent_ok (e : event) : Prop :=
   match e with
   | EvSent preset reported hb =>
+      (forall p, preset = Some p -> reported = p) /\ wire_serial hb = Some reported
+  | EvSentResumed preset _ reported hb =>
       (forall p, preset = Some p -> reported = p) /\ wire_serial hb = Some reported
   | _ => True
   end.
@@ -43,16 +47,18 @@ Definition serials_spec (evs : list event) : Prop :=
 Definition op_wf (o : op) : Prop :=
   match o with
   | OpAlloc => True
-  | OpSend m => forall p, dh_serial (msg_dyn m) = Some p -> 0 < p < 2^32
+  | OpSend m | OpSendResumed m _ => forall p, dh_serial (msg_dyn m) = Some p -> 0 < p < 2^32
   end.
 
 (* number of serials a history takes from the counter *)
-Definition takes_serial (o : op) : bool :=
+Definition fresh (m : message) : N := match dh_serial (msg_dyn m) with None => 1 | Some _ => 0 end.
+Definition serials_taken (o : op) : N :=
   match o with
-  | OpAlloc => true
-  | OpSend m => match dh_serial (msg_dyn m) with None => true | Some _ => false end
+  | OpAlloc => 1
+  | OpSend m => fresh m
+  | OpSendResumed m k => fresh m + N.of_nat k
   end.
-Definition nallocs (ops : list op) : N := len (filter takes_serial ops).
+Definition nallocs (ops : list op) : N := fold_right (fun o n => serials_taken o + n) 0 ops.
 
 (* replies *)
 Definition is_reply_type (t : mtype) : Prop := t = MReply \/ t = MError.
@@ -135,22 +141,25 @@ Section Proofs.
     | None => Err
     | Some t => match hdr_fields m with
                 | None => Err
-                | Some fs => Ok ([bo_byte (msg_bo m); t; msg_flags m; 1; 0; 0; 0; 0] ++ u32_bytes (msg_bo m) s
+                | Some fs => if MAX_ARRAY_LEN <? len fs then Err else
+                             Ok ([bo_byte (msg_bo m); t; msg_flags m; 1; 0; 0; 0; 0] ++ u32_bytes (msg_bo m) s
                                  ++ u32_bytes (msg_bo m) (len fs mod 2^32) ++ fs)
                 end
     end.
   Proof.
     unfold marshal_header. destruct (typ_code (msg_typ m)) as [t|]; [|reflexivity].
     destruct (hdr_fields m) as [fs|]; [|reflexivity].
-    unfold write_u32.
+    unfold write_u32, check_marshalled_array_len.
     destruct (msg_bo m); cbn [u32_bytes le_bytes32 rev app].
-    all: match goal with |- insert_u32_at _ _ (len ?l) _ = _ => change (len l) with 12 end.
+    all: rewrite !len_cons, ?len_rev; change (len (le_bytes32 s)) with 4; change (len (@nil N)) with 0.
+    all: match goal with |- context [?a - ?b - 4] => replace (a - b - 4) with (len fs) by lia end.
+    all: destruct (MAX_ARRAY_LEN <? len fs); [reflexivity|]; cbn [bind].
+    all: match goal with |- insert_u32_at _ _ ?p _ = _ => replace p with 12 by lia end.
     all: unfold insert_u32_at.
     all: rewrite !len_cons.
     all: match goal with |- (if ?a <? ?b then _ else _) = _ => destruct (N.ltb_spec a b) as [L|L]; [exfalso; lia|] end.
     all: unfold firstnN, skipnN; change (N.to_nat (12 + 4)) with 16%nat; change (N.to_nat 12) with 12%nat.
     all: cbn [firstn skipn app u32_bytes le_bytes32 rev].
-    all: replace (1 + (1 + (1 + (1 + (1 + (1 + (1 + (1 + (1 + (1 + (1 + (1 + (1 + (1 + (1 + (1 + len fs))))))))))))))) - 12 - 4) with (len fs) by lia.
     all: reflexivity.
   Qed.
 
@@ -163,6 +172,7 @@ Section Proofs.
     | Some t => match hdr_fields m with
                 | None => Err
                 | Some fs =>
+                    if MAX_ARRAY_LEN <? len fs then Err else
                     let hb := [bo_byte (msg_bo m); t; msg_flags m; 1] ++ u32_bytes (msg_bo m) (len (msg_body m) mod 2^32)
                               ++ u32_bytes (msg_bo m) s ++ u32_bytes (msg_bo m) (len fs mod 2^32) ++ fs ++ z in
                     if MAX_MESSAGE_LEN <? len hb + len (msg_body m) then Err else Ok hb
@@ -170,12 +180,14 @@ Section Proofs.
     end.
   Proof.
     unfold marshal. rewrite marshal_header_eq.
+    assert (Z : forall fs : list N, (16 + len fs + len (zeros ((8 - (16 + len fs) mod 8) mod 8))) mod 8 = 0).
+    { intros fs. rewrite len_zeros. remember (len fs) as n. lia. }
     destruct (typ_code (msg_typ m)) as [t|].
     2:{ destruct (hdr_fields m) as [fs|].
-        - exists (zeros ((8 - (16 + len fs) mod 8) mod 8)). split; [|reflexivity]. rewrite len_zeros.
-          remember (len fs) as n. lia.
+        - eexists. split; [apply Z|reflexivity].
         - exists []. split; reflexivity. }
     destruct (hdr_fields m) as [fs|]; [|exists []; split; reflexivity].
+    destruct (MAX_ARRAY_LEN <? len fs); [eexists; split; [apply Z|reflexivity]|].
     cbn [bind].
     pose proof (len_pad_to_align_8 ([bo_byte (msg_bo m); t; msg_flags m; 1; 0; 0; 0; 0] ++ u32_bytes (msg_bo m) s ++ u32_bytes (msg_bo m) (len fs mod 2 ^ 32) ++ fs)) as M8.
     destruct (pad_to_align_app 8 ([bo_byte (msg_bo m); t; msg_flags m; 1; 0; 0; 0; 0] ++ u32_bytes (msg_bo m) s ++ u32_bytes (msg_bo m) (len fs mod 2 ^ 32) ++ fs)) as [z Hz].
@@ -183,7 +195,7 @@ Section Proofs.
     { rewrite !len_app, !len_u32_bytes in M8.
       change (len [bo_byte (msg_bo m); t; msg_flags m; 1; 0; 0; 0; 0]) with 8 in M8.
       replace (16 + len fs + len z) with (8 + (4 + (4 + len fs)) + len z) by lia. exact M8. }
-    clear M8 Hz. cbv zeta.
+    clear M8 Hz Z. cbv zeta.
     destruct (msg_bo m); cbn [u32_bytes le_bytes32 rev app].
     all: rewrite !len_cons.
     all: match goal with |- (if ?c then _ else _) = _ => destruct c; [reflexivity|] end.
@@ -202,7 +214,8 @@ Section Proofs.
   Proof.
     destruct (marshal_eq m s) as (z & M8 & ->).
     destruct (typ_code (msg_typ m)) as [t|]; [|discriminate].
-    destruct (hdr_fields m) as [fs|]; [|discriminate]. cbv zeta.
+    destruct (hdr_fields m) as [fs|]; [|discriminate].
+    destruct (MAX_ARRAY_LEN <? len fs); [discriminate|]. cbv zeta.
     match goal with |- (if ?a <? ?b then _ else _) = _ -> _ => destruct (N.ltb_spec a b) as [L|L]; [discriminate|] end.
     intros H. injection H as Hhb. subst hb. exists t, fs, z. repeat split; try exact L.
     rewrite !len_cons, !len_app, !len_u32_bytes.
@@ -214,7 +227,8 @@ Section Proofs.
   Proof.
     destruct (marshal_eq m s) as (z & _ & ->).
     destruct (typ_code (msg_typ m)) as [t|]; [|repeat split; discriminate].
-    destruct (hdr_fields m) as [fs|]; [|repeat split; discriminate]. cbv zeta.
+    destruct (hdr_fields m) as [fs|]; [|repeat split; discriminate].
+    destruct (MAX_ARRAY_LEN <? len fs); [repeat split; discriminate|]. cbv zeta.
     destruct (_ <? _); repeat split; discriminate.
   Qed.
 
@@ -253,113 +267,192 @@ Section Proofs.
     - right. split; [lia|reflexivity].
   Qed.
 
-  (* one step of a history *)
+  (* serials in [lo, hi) in increasing order *)
+  Definition in_range (lo hi : N) (l : list N) : Prop :=
+    StronglySorted N.lt l /\ Forall (fun s => lo <= s < hi) l.
+
+  Lemma in_range_nil lo hi : in_range lo hi [].
+  Proof. split; constructor. Qed.
+
+  Lemma in_range_cons lo mid hi s l : lo <= s < mid -> mid <= hi -> in_range mid hi l -> in_range lo hi (s :: l).
+  Proof.
+    intros Hs Hm [S F]. split.
+    - constructor; [exact S|]. eapply Forall_impl; [|exact F]. cbn beta. intros a Ha. lia.
+    - constructor; [lia|]. eapply Forall_impl; [|exact F]. cbn beta. intros a Ha. lia.
+  Qed.
+
+  Lemma in_range_app lo mid hi l1 l2 : lo <= mid -> mid <= hi -> in_range lo mid l1 -> in_range mid hi l2 -> in_range lo hi (l1 ++ l2).
+  Proof.
+    intros H1 H2. induction l1 as [|a l1 IH]; intros [S1 F1] R2.
+    - cbn [app]. destruct R2 as [S F]. split; [exact S|]. eapply Forall_impl; [|exact F]. cbn beta. intros a Ha. lia.
+    - inversion S1; subst. inversion F1; subst. cbn [app].
+      assert (IH' : in_range lo hi (l1 ++ l2)) by (apply IH; [split; assumption|exact R2]).
+      destruct IH' as [S F]. split.
+      + constructor; [exact S|]. apply Forall_app. split; [assumption|].
+        destruct R2 as [_ F2]. eapply Forall_impl; [|exact F2]. cbn beta. intros b Hb. lia.
+      + constructor; [lia|exact F].
+  Qed.
+
+  Lemma in_range_widen lo lo' hi hi' l : lo' <= lo -> hi <= hi' -> in_range lo hi l -> in_range lo' hi' l.
+  Proof. intros H1 H2 [S F]. split; [exact S|]. eapply Forall_impl; [|exact F]. cbn beta. intros a Ha. lia. Qed.
+
+  (* k allocations in a row: the next k serials, or the panic when they run out *)
+  Lemma alloc_n_spec k : forall c, conn_ok c ->
+    (serial_counter c + N.of_nat k < 2^32 /\
+     exists c' ss, alloc_n k c = Ok (c', ss) /\ conn_ok c' /\ serial_counter c' = serial_counter c + N.of_nat k
+                   /\ header_buf c' = header_buf c /\ in_range (serial_counter c) (serial_counter c') ss)
+    \/ (2^32 <= serial_counter c + N.of_nat k /\ alloc_n k c = Panic).
+  Proof.
+    induction k as [|k IH]; intros c Hc; cbn [alloc_n].
+    - left. split; [unfold conn_ok in Hc; lia|]. exists c, []. repeat split; try apply Hc; try lia; constructor.
+    - destruct (alloc_serial_spec c Hc) as [[L ->]|[E ->]]; cbn [bind].
+      + set (c1 := {| header_buf := header_buf c; serial_counter := serial_counter c + 1 |}).
+        assert (Hc1 : conn_ok c1) by (unfold conn_ok, c1 in *; cbn [serial_counter]; lia).
+        destruct (IH c1 Hc1) as [(Lk & c' & ss & -> & Hc' & Hn & Hh & R)|(Lk & ->)]; cbn [bind].
+        * left. unfold c1 in *. cbn [serial_counter header_buf] in *. split; [lia|].
+          exists c', (serial_counter c :: ss). split; [reflexivity|]. split; [exact Hc'|]. split; [lia|]. split; [exact Hh|].
+          eapply in_range_cons; [| |exact R]; lia.
+        * right. unfold c1 in Lk. cbn [serial_counter] in Lk. split; [lia|reflexivity].
+      + right. split; [lia|reflexivity].
+  Qed.
+
+  (* send_message: Ok with or without a context, or the panic of alloc_serial; the facts about the context *)
+  Lemma send_message_cases c m : conn_ok c -> (forall p, dh_serial (msg_dyn m) = Some p -> 0 < p < 2^32) ->
+    (serial_counter c + fresh m < 2^32 /\
+     exists c' x, send_message hdr_fields c m = Ok (c', x) /\ conn_ok c'
+       /\ serial_counter c' = serial_counter c + fresh m
+       /\ match x with
+          | None => True
+          | Some x => cx_conn x = c' /\ cx_msg x = m /\ bytes_sent (cx_state x) = 0
+                      /\ ctx_serial x = (match dh_serial (msg_dyn m) with Some p => p | None => serial_counter c end)
+                      /\ wire_serial (header_buf c') = Some (ctx_serial x)
+          end)
+    \/ (fresh m = 1 /\ serial_counter c + 1 = 2^32 /\ send_message hdr_fields c m = Panic).
+  Proof.
+    intros Hc Hw. unfold send_message, fresh.
+    destruct (dh_serial (msg_dyn m)) as [p|] eqn:Ep; cbn [bind].
+    - left. split; [unfold conn_ok in Hc; lia|].
+      pose proof (marshal_total m p) as (T1 & T2 & T3). cbn [header_buf serial_counter].
+      destruct (marshal hdr_fields m p []) as [hb| | | |] eqn:Em; try congruence.
+      + eexists. eexists. split; [reflexivity|]. cbn [serial_counter header_buf]. split; [exact Hc|]. split; [cbn [serial_counter]; lia|].
+        cbn [ctx_serial cx_conn cx_msg cx_state bytes_sent st_serial header_buf]. repeat split.
+        eapply marshal_wire_serial; [|exact Em]. apply (Hw p eq_refl).
+      + eexists. eexists. split; [reflexivity|]. cbn [serial_counter]. split; [exact Hc|]. split; [cbn [serial_counter]; lia|exact I].
+    - destruct (alloc_serial_spec c Hc) as [[L ->]|[E ->]]; cbn [bind]; [left|right; auto].
+      split; [exact L|].
+      pose proof (marshal_total m (serial_counter c)) as (T1 & T2 & T3). cbn [header_buf serial_counter].
+      destruct (marshal hdr_fields m (serial_counter c) []) as [hb| | | |] eqn:Em; try congruence.
+      + eexists. eexists. split; [reflexivity|]. cbn [serial_counter header_buf].
+        split; [unfold conn_ok in *; cbn [serial_counter]; lia|]. split; [reflexivity|].
+        cbn [ctx_serial cx_conn cx_msg cx_state bytes_sent st_serial header_buf]. repeat split.
+        eapply marshal_wire_serial; [|exact Em]. unfold conn_ok in Hc. lia.
+      + eexists. eexists. split; [reflexivity|]. cbn [serial_counter].
+        split; [unfold conn_ok in *; cbn [serial_counter]; lia|]. split; [reflexivity|exact I].
+  Qed.
+
+  (* one step of a history: Ok with the serials of this step in [counter before, counter after),
+     or the panic exactly when the step needs more serials than are left *)
+  Lemma step_cases c o : conn_ok c -> op_wf o ->
+    (serial_counter c + serials_taken o < 2^32 /\
+     exists c' e, step hdr_fields c o = Ok (c', e) /\ conn_ok c'
+       /\ serial_counter c' = serial_counter c + serials_taken o
+       /\ in_range (serial_counter c) (serial_counter c') (issued_of e) /\ sent_ok e)
+    \/ (2^32 <= serial_counter c + serials_taken o /\ step hdr_fields c o = Panic).
+  Proof.
+    intros Hc Hw. destruct o as [|m|m k]; cbn [step serials_taken].
+    - destruct (alloc_serial_spec c Hc) as [[L ->]|[E ->]]; cbn [bind]; [left|right; split; [lia|reflexivity]].
+      split; [exact L|]. eexists. eexists. split; [reflexivity|].
+      split; [unfold conn_ok in *; cbn [serial_counter]; lia|]. cbn [serial_counter issued_of sent_ok].
+      split; [reflexivity|]. split; [|exact I].
+      apply (in_range_cons _ (serial_counter c + 1)); [lia|lia|apply in_range_nil].
+    - cbn [op_wf] in Hw.
+      destruct (send_message_cases c m Hc Hw) as [(L & c' & x & -> & Hc' & Hn & Hx)|(F & E & ->)]; cbn [bind];
+        [left|right; split; [lia|reflexivity]].
+      split; [exact L|]. destruct x as [x|].
+      + destruct Hx as (X1 & X2 & X3 & X4 & X5).
+        eexists. eexists. split; [reflexivity|]. split; [exact Hc'|]. split; [exact Hn|].
+        rewrite X1. cbn [issued_of sent_ok]. unfold fresh in *.
+        destruct (dh_serial (msg_dyn m)) as [p|].
+        * split; [apply in_range_nil|]. split; [intros q Hq; inversion Hq as [Hq']; rewrite <- Hq'; exact X4|exact X5].
+        * split; [|split; [intros q Hq; discriminate|exact X5]]. rewrite X4. cbv beta iota in Hn.
+          apply (in_range_cons _ (serial_counter c')); [lia|lia|apply in_range_nil].
+      + eexists. eexists. split; [reflexivity|]. split; [exact Hc'|]. split; [exact Hn|].
+        cbn [issued_of sent_ok]. split; [apply in_range_nil|exact I].
+    - cbn [op_wf] in Hw.
+      destruct (send_message_cases c m Hc Hw) as [(L & c1 & x & -> & Hc1 & Hn1 & Hx)|(F & E & ->)]; cbn [bind];
+        [|right; split; [lia|reflexivity]].
+      destruct (alloc_n_spec k c1 Hc1) as [(Lk & c' & ss & -> & Hc' & Hn & Hh & R)|(Lk & ->)]; cbn [bind];
+        [left|right; split; [lia|reflexivity]].
+      split; [lia|]. destruct x as [x|]; cbn [option_map].
+      + destruct Hx as (X1 & X2 & X3 & X4 & X5).
+        eexists. eexists. split; [reflexivity|]. split; [exact Hc'|]. split; [lia|].
+        cbn [issued_of sent_ok]. unfold ctx_serial, resume, into_progress in *. cbn [cx_state cx_conn]. rewrite Hh.
+        unfold fresh in *.
+        destruct (dh_serial (msg_dyn m)) as [p|].
+        * split; [eapply in_range_widen; [| |exact R]; lia|].
+          split; [intros q Hq; inversion Hq as [Hq']; rewrite <- Hq'; exact X4|exact X5].
+        * split; [|split; [intros q Hq; discriminate|exact X5]]. rewrite X4.
+          eapply in_range_cons; [| |exact R]; lia.
+      + eexists. eexists. split; [reflexivity|]. split; [exact Hc'|]. split; [lia|].
+        cbn [issued_of sent_ok]. split; [eapply in_range_widen; [| |exact R]; lia|exact I].
+  Qed.
+
+  (* in particular for a send that is suspended, sees k allocations, and is resumed: the serial of the
+     resumed context is the one chosen by send_message and the one in the header it transmits *)
   Lemma step_spec c o c' e : conn_ok c -> op_wf o -> step hdr_fields c o = Ok (c', e) ->
-    conn_ok c'
-    /\ serial_counter c' = serial_counter c + (if takes_serial o then 1 else 0)
+    conn_ok c' /\ serial_counter c' = serial_counter c + serials_taken o
+    /\ StronglySorted N.lt (issued_of e)
     /\ Forall (fun s => serial_counter c <= s < serial_counter c') (issued_of e)
     /\ sent_ok e.
   Proof.
-    intros Hc Hw. destruct o as [|m]; cbn [step takes_serial].
-    - destruct (alloc_serial_spec c Hc) as [[L ->]|[_ ->]]; cbn [bind]; [|discriminate].
-      intros H. inversion H; subst; clear H. cbn [serial_counter issued_of sent_ok]. unfold conn_ok in *.
-      cbn [serial_counter]. repeat split; try lia. constructor; [lia|constructor].
-    - unfold send_message. cbn [op_wf] in Hw.
-      destruct (dh_serial (msg_dyn m)) as [p|] eqn:Ep; cbn [bind].
-      + pose proof (marshal_total m p) as (T1 & T2 & T3).
-        cbn [header_buf serial_counter].
-        destruct (marshal hdr_fields m p []) as [hb| | | |] eqn:Em; try congruence; cbn [bind];
-          intros H; inversion H; subst; clear H; cbn [serial_counter issued_of sent_ok];
-          (split; [exact Hc|]); (split; [lia|]); (split; [constructor|]); [|exact I].
-        cbn [ctx_serial cx_state st_serial cx_conn header_buf]. split.
-        * intros q Hq. inversion Hq. reflexivity.
-        * eapply marshal_wire_serial; [|exact Em]. apply (Hw p eq_refl).
-      + destruct (alloc_serial_spec c Hc) as [[L ->]|[_ ->]]; cbn [bind]; [|discriminate].
-        pose proof (marshal_total m (serial_counter c)) as (T1 & T2 & T3).
-        cbn [header_buf serial_counter].
-        destruct (marshal hdr_fields m (serial_counter c) []) as [hb| | | |] eqn:Em; try congruence; cbn [bind];
-          intros H; inversion H; subst; clear H; cbn [serial_counter issued_of sent_ok];
-          unfold conn_ok in *; cbn [serial_counter]; (split; [lia|]); (split; [lia|]).
-        * cbn [ctx_serial cx_state st_serial cx_conn header_buf]. split; [constructor; [lia|constructor]|].
-          split; [intros q Hq; discriminate|]. eapply marshal_wire_serial; [|exact Em]. lia.
-        * split; [constructor|exact I].
+    intros Hc Hw H. destruct (step_cases c o Hc Hw) as [(_ & c2 & e2 & E & Hc' & Hn & [S F] & So)|(_ & E)];
+      rewrite E in H; [|discriminate].
+    inversion H; subst. auto.
   Qed.
 
-  Lemma step_outcome c o : conn_ok c ->
-    (exists c' e, step hdr_fields c o = Ok (c', e)) \/
-    (step hdr_fields c o = Panic /\ takes_serial o = true /\ serial_counter c + 1 = 2^32).
+  Lemma nallocs_cons o ops : nallocs (o :: ops) = serials_taken o + nallocs ops.
+  Proof. reflexivity. Qed.
+
+  (* histories: every serial handed out lies in [counter before, counter after), in increasing order;
+     a history ends Ok iff the counter does not run out *)
+  Lemma run_ops_cases ops : forall c, conn_ok c -> Forall op_wf ops ->
+    (serial_counter c + nallocs ops < 2^32 /\
+     exists c' evs, run_ops hdr_fields ops c = Ok (c', evs) /\ conn_ok c'
+       /\ serial_counter c' = serial_counter c + nallocs ops
+       /\ in_range (serial_counter c) (serial_counter c') (issued evs) /\ Forall sent_ok evs)
+    \/ (2^32 <= serial_counter c + nallocs ops /\ run_ops hdr_fields ops c = Panic).
   Proof.
-    intros Hc. destruct o as [|m]; cbn [step takes_serial].
-    - destruct (alloc_serial_spec c Hc) as [[L ->]|[E ->]]; cbn [bind]; [left; eauto|right; auto].
-    - unfold send_message. destruct (dh_serial (msg_dyn m)) as [p|]; cbn [bind].
-      + pose proof (marshal_total m p) as (T1 & T2 & T3). cbn [header_buf serial_counter].
-        destruct (marshal hdr_fields m p []); try congruence; cbn [bind]; left; eauto.
-      + destruct (alloc_serial_spec c Hc) as [[L ->]|[E ->]]; cbn [bind]; [|right; auto].
-        pose proof (marshal_total m (serial_counter c)) as (T1 & T2 & T3). cbn [header_buf serial_counter].
-        destruct (marshal hdr_fields m (serial_counter c) []); try congruence; cbn [bind]; left; eauto.
+    induction ops as [|o ops IH]; intros c Hc Hw; cbn [run_ops].
+    - left. unfold nallocs. cbn [fold_right]. split; [unfold conn_ok in Hc; lia|].
+      exists c, []. split; [reflexivity|]. split; [exact Hc|]. split; [lia|]. split; [apply in_range_nil|constructor].
+    - inversion Hw as [|? ? Hwo Hwops]; subst. rewrite nallocs_cons.
+      destruct (step_cases c o Hc Hwo) as [(L & c1 & e & -> & Hc1 & Hn1 & R1 & S1)|(L & ->)]; cbn [bind];
+        [|right; split; [lia|reflexivity]].
+      destruct (IH c1 Hc1 Hwops) as [(L2 & c' & evs & -> & Hc' & Hn & R & S)|(L2 & ->)]; cbn [bind];
+        [left|right; split; [lia|reflexivity]].
+      split; [lia|]. exists c', (e :: evs). split; [reflexivity|]. split; [exact Hc'|]. split; [lia|].
+      split; [|constructor; assumption].
+      unfold issued. cbn [flat_map]. apply (in_range_app _ (serial_counter c1)); try lia; assumption.
   Qed.
 
-  (* histories: every serial handed out lies in [counter before, counter after), in increasing order *)
-  Lemma run_ops_spec ops : forall c c' evs, conn_ok c -> Forall op_wf ops ->
+  Lemma run_ops_spec ops c c' evs : conn_ok c -> Forall op_wf ops ->
     run_ops hdr_fields ops c = Ok (c', evs) ->
     conn_ok c' /\ serial_counter c' = serial_counter c + nallocs ops
     /\ StronglySorted N.lt (issued evs)
     /\ Forall (fun s => serial_counter c <= s < serial_counter c') (issued evs)
     /\ Forall sent_ok evs.
   Proof.
-    induction ops as [|o ops IH]; intros c c' evs Hc Hw; cbn [run_ops].
-    - intros H. inversion H; subst. unfold nallocs. cbn. repeat split; try apply Hc; try lia; constructor.
-    - inversion Hw as [|? ? Hwo Hwops]; subst.
-      destruct (step hdr_fields c o) as [[c1 e]| | | |] eqn:Es; cbn [bind]; try discriminate.
-      destruct (run_ops hdr_fields ops c1) as [[c2 es]| | | |] eqn:Er; cbn [bind]; try discriminate.
-      intros H. inversion H; subst; clear H.
-      destruct (step_spec _ _ _ _ Hc Hwo Es) as (Hc1 & Hn1 & Hi1 & Hs1).
-      destruct (IH _ _ _ Hc1 Hwops Er) as (Hc2 & Hn2 & Hsort & Hrange & Hsent).
-      assert (Hmono : serial_counter c1 <= serial_counter c') by lia.
-      split; [exact Hc2|]. split.
-      { rewrite Hn2, Hn1. unfold nallocs. cbn [filter]. destruct (takes_serial o); [rewrite len_cons|]; lia. }
-      unfold issued in *. cbn [flat_map].
-      split; [|split].
-      + (* sorted: at most one serial from this step, smaller than all later ones *)
-        destruct (issued_of e) as [|s [|s2 rest]] eqn:Ei.
-        * exact Hsort.
-        * cbn [app]. constructor; [exact Hsort|].
-          inversion Hi1 as [|? ? Hs _]; subst.
-          eapply Forall_impl; [|exact Hrange]. cbn beta. intros a Ha. lia.
-        * exfalso. destruct e as [s0|[p|] r hb|p]; cbn in Ei; discriminate.
-      + apply Forall_app. split.
-        * eapply Forall_impl; [|exact Hi1]. cbn beta. intros a Ha. lia.
-        * eapply Forall_impl; [|exact Hrange]. cbn beta. intros a Ha. lia.
-      + constructor; assumption.
+    intros Hc Hw H. destruct (run_ops_cases ops c Hc Hw) as [(_ & c2 & evs2 & E & Hc' & Hn & [S F] & So)|(_ & E)];
+      rewrite E in H; [|discriminate].
+    inversion H; subst. auto.
   Qed.
 
-  Lemma run_ops_outcome ops : forall c, conn_ok c ->
+  Lemma run_ops_outcome ops c : conn_ok c -> Forall op_wf ops ->
     (serial_counter c + nallocs ops < 2^32 -> exists c' evs, run_ops hdr_fields ops c = Ok (c', evs))
     /\ (2^32 <= serial_counter c + nallocs ops -> run_ops hdr_fields ops c = Panic).
   Proof.
-    induction ops as [|o ops IH]; intros c Hc; cbn [run_ops].
-    - unfold nallocs. cbn. split; [eauto|]. unfold conn_ok in Hc. lia.
-    - assert (Hn : nallocs (o :: ops) = (if takes_serial o then 1 else 0) + nallocs ops).
-      { unfold nallocs. cbn [filter]. destruct (takes_serial o); [rewrite len_cons|]; lia. }
-      rewrite Hn.
-      destruct (step_outcome c o Hc) as [(c1 & e & Es)|(Es & Et & Ec)].
-      + rewrite Es. cbn [bind].
-        assert (Hw : conn_ok c1 /\ serial_counter c1 = serial_counter c + (if takes_serial o then 1 else 0)).
-        { revert Es. destruct o as [|m]; cbn [step takes_serial].
-          - destruct (alloc_serial_spec c Hc) as [[L ->]|[_ ->]]; cbn [bind]; [|discriminate].
-            intros H. inversion H; subst. unfold conn_ok in *. cbn [serial_counter]. lia.
-          - unfold send_message. destruct (dh_serial (msg_dyn m)) as [p|]; cbn [bind].
-            + cbn [header_buf serial_counter]. destruct (marshal hdr_fields m p []); cbn [bind]; try discriminate;
-                intros H; inversion H; subst; cbn [serial_counter]; (split; [exact Hc|lia]).
-            + destruct (alloc_serial_spec c Hc) as [[L ->]|[_ ->]]; cbn [bind]; [|discriminate].
-              cbn [header_buf serial_counter].
-              destruct (marshal hdr_fields m (serial_counter c) []); cbn [bind]; try discriminate;
-                intros H; inversion H; subst; unfold conn_ok in *; cbn [serial_counter]; lia. }
-        destruct Hw as [Hc1 Hs1]. destruct (IH c1 Hc1) as [IHok IHp]. split.
-        * intros L. destruct IHok as (c' & evs & ->); [lia|]. cbn [bind]. eauto.
-        * intros L. rewrite IHp by lia. reflexivity.
-      + rewrite Es. cbn [bind]. rewrite Et. split; [|reflexivity].
-        intros L. exfalso. lia.
+    intros Hc Hw. destruct (run_ops_cases ops c Hc Hw) as [(L & c2 & evs2 & E & _)|(L & E)]; split; intros G;
+      try lia; eauto.
   Qed.
 
   (* ---------------------------------------------------------------- top-level statements *)
@@ -374,11 +467,11 @@ Section Proofs.
 
   (* a history runs to its end iff it takes fewer than 2^32-1 serials; otherwise the model, like the
      code ("run out of serials"), panics *)
-  Theorem history_outcome : forall ops,
+  Theorem history_outcome : forall ops, Forall op_wf ops ->
     (nallocs ops < 2^32 - 1 -> exists c' evs, run_ops hdr_fields ops conn_init = Ok (c', evs))
     /\ (2^32 - 1 <= nallocs ops -> run_ops hdr_fields ops conn_init = Panic).
   Proof.
-    intros ops. destruct (run_ops_outcome ops conn_init conn_init_ok) as [A B].
+    intros ops Hw. destruct (run_ops_outcome ops conn_init conn_init_ok Hw) as [A B].
     unfold conn_init in *. cbn [serial_counter] in *. destruct pow_consts as (_ & _ & _ & E & _). rewrite E in *.
     split; intros L; [apply A|apply B]; lia.
   Qed.
